@@ -4,6 +4,7 @@
 package q
 
 import (
+	"os"
 	"context"
 	"encoding/json"
 	"fmt"
@@ -498,6 +499,13 @@ func Run(o *core.Options) int {
 	}
 	if o.Replay != "" {
 		return replay(o, r, scs)
+	}
+	if os.Getenv("VERIF_XVAL") != "" {
+		return e1.XVal(scs, false, 60*time.Second)
+	}
+	b.DPOR = 20 * time.Second
+	if o.Thorough() {
+		b.DPOR = 5 * time.Minute
 	}
 	results := e1.RunSharded(o, r, scs, b)
 	e1.Merge(r, results)
